@@ -62,13 +62,15 @@ TSet == /\ IsEvent("set") /\ Tr[l].n \in Names /\ Tr[l].v \in VLens /\ Tr[l].t \
 TRm == /\ IsEvent("rm") /\ Tr[l].n \in Names \ {DATA}
        /\ PRemove(Tr[l].n) /\ res' = Tr[l].ret /\ Keep /\ Logged
 TShare == IsEvent("share") /\ PShare /\ Tr[l].ret = 0 /\ Keep /\ Logged
+\* the driver refuses to share when there is no block or the peer already has one (ret 2): nothing changes
+TShareNo == /\ IsEvent("share") /\ Tr[l].ret = 2 /\ ~(hasblk /\ pstate = "none") /\ UNCHANGED vars /\ Keep /\ Logged
 \* closing and reopening the filesystem changes nothing that is observed
 TReopen == IsEvent("reopen") /\ UNCHANGED vars /\ Keep /\ Logged
 
 TraceInit == /\ AInit(InitPresent) /\ place = <<>> /\ ib = 0 /\ hasblk = FALSE /\ magic = FALSE /\ pstate = "none" /\ pblk = <<>>
              /\ eai = [k \in 1..MaxEa |-> NoEa] /\ chg = 0 /\ res = 0 /\ nops = 0
              /\ l = 1 /\ fb0 = 0 /\ fi0 = 0 /\ ib0 = 0
-TraceNext == TReset \/ TSet \/ TRm \/ TShare \/ TReopen
+TraceNext == TReset \/ TSet \/ TRm \/ TShare \/ TShareNo \/ TReopen
 TraceSpec == TraceInit /\ [][TraceNext]_tvars
 TraceAccepted == TLCGet("stats").diameter - 1 = Len(Tr)
 \* the initial state before the first reset line is not an implementation state
